@@ -21,6 +21,8 @@ type rwRT struct {
 	pkg *ssa.Package
 	ast *types.Package
 	tok *types.Package
+	// markMethod: name of block's "combine check done" method, discovered by behaviour
+	markMethod string
 }
 
 func newRwRT(c *Ctx) *rwRT {
@@ -361,8 +363,12 @@ func (r *rwRT) buildBlock(st *State, blockKind AV, stmts []AV, kinds []AV) (AV, 
 		cur = o[0].St
 		return nil
 	}
+	mark := r.blockMarkMethod()
+	if mark == "" {
+		return nil, nil, fmt.Errorf("no method of block re-arms push (the combine-check marker was not found)")
+	}
 	for i := range stmts {
-		if err := call("markCombined"); err != nil {
+		if err := call(mark); err != nil {
 			return nil, nil, err
 		}
 		if err := call("push", stmts[i], kinds[i]); err != nil {
@@ -400,4 +406,62 @@ func blockHasConst(st *State, b AV, c AV) bool {
 		}
 	}
 	return false
+}
+
+
+// blockMarkMethod discovers, by behaviour, the method of *block that records "the combine check has
+// run": the niladic method without results after which a second push does not trip push's assertion
+// (a push right after a push does). Its name is not assumed.
+func (r *rwRT) blockMarkMethod() string {
+	if r.markMethod != "" {
+		return r.markMethod
+	}
+	mk := r.w.FuncOpt(pathRw, "mkBlock")
+	push := r.w.MethodOpt(pathRw, "block", "push")
+	if mk == nil || push == nil {
+		return ""
+	}
+	kd := r.kindConst("kindDelay")
+	kt := r.kindConst("kindTrival")
+	s0 := Dyn{T: r.astPtr("ExprStmt"), V: Sym{Name: "s0", NN: true}}
+	run := func(st *State, fn *ssa.Function, args []AV) (*State, []AV, bool) {
+		in := r.interp(rwConfig{root: fn, inlineAll: true})
+		in.MaxVisits = 8
+		o := in.Run(st, fn, args, nil)
+		r.account(in)
+		if len(o) != 1 || o[0].Panicked {
+			return nil, nil, false
+		}
+		return o[0].St, o[0].Ret, true
+	}
+	st, ret, ok := run(newState(), mk, []AV{kd})
+	if !ok || len(ret) != 1 {
+		return ""
+	}
+	b := ret[0]
+	st, _, ok = run(st, push, []AV{b, s0, kt})
+	if !ok {
+		return ""
+	}
+	// a second push right away must fail (otherwise there is no such protocol to discover)
+	if _, _, ok2 := run(st.clone(), push, []AV{b, s0, kt}); ok2 {
+		return ""
+	}
+	nt := push.Signature.Recv().Type()
+	ms := r.w.Prog.MethodSets.MethodSet(nt)
+	for i := 0; i < ms.Len(); i++ {
+		m := r.w.Prog.MethodValue(ms.At(i))
+		if m == nil || m.Signature.Params().Len() != 0 || m.Signature.Results().Len() != 0 {
+			continue
+		}
+		st2, _, ok := run(st.clone(), m, []AV{b})
+		if !ok {
+			continue
+		}
+		if _, _, ok := run(st2, push, []AV{b, s0, kt}); ok {
+			r.markMethod = m.Name()
+			return r.markMethod
+		}
+	}
+	return ""
 }
